@@ -1030,6 +1030,10 @@ func (ex *Exec) callAsserts(st *State, rec *callRec, when string) {
 		if ca.When != when || ca.Callee != rec.short || (ca.Ord != 0 && ca.Ord != rec.ord) {
 			continue
 		}
+		if ex.assertHit == nil {
+			ex.assertHit = map[*CallAssert]bool{}
+		}
+		ex.assertHit[ca] = true
 		env := ex.funcEnv(st)
 		// bind call arguments/results as $0.. / $r0..
 		vars := map[string]Val{}
@@ -1058,6 +1062,11 @@ func (ex *Exec) callAsserts(st *State, rec *callRec, when string) {
 		env = env.with(vars)
 		goal, err := env.trBool(ca.Clause.E)
 		if err != nil {
+			if isMissingCall(err) {
+				// the clause names a call (callres/called) that does not exist in the body: it cannot be established
+				ex.bindingFail("assert", ca.Clause.Label, ca.Clause.Src, err.Error(), fmt.Sprintf("%s:%d", ca.Clause.File, ca.Clause.Line))
+				continue
+			}
 			unsup("%s:%d: %v", ca.Clause.File, ca.Clause.Line, err)
 		}
 		lbl := ca.Clause.Label
@@ -1221,4 +1230,18 @@ func (ex *Exec) pureBlock(b *ssa.BasicBlock, pred *ssa.BasicBlock, st *State, de
 	}
 	unsup("block without terminator")
 	return nil
+}
+
+func isMissingCall(err error) bool {
+	s := err.Error()
+	return strings.Contains(s, "no call ") && strings.Contains(s, " on record")
+}
+
+// bindingFail: a contract clause refers to a call site that the function body does not (any longer) contain. The clause
+// cannot be established on this code, which is reported as a failed obligation under the clause's own name
+// (goal false) rather than as an engine error.
+func (ex *Exec) bindingFail(kind, label, src, why, where string) {
+	g := ex.g
+	g.obls = append(g.obls, &Obligation{Name: fmt.Sprintf("%s/%s/%s", g.curFunc, kind, label), Func: g.curFunc, Kind: kind, Label: label,
+		Goal: "false", PC: "true", NFacts: 0, Src: src + "   [clause does not bind to the code: " + why + "]", Where: where, g: g, Expect: "unsat", Props: ex.c.Props})
 }
